@@ -144,6 +144,17 @@ def run(case):
                 idx = w.crop(f, mode=m)
                 rng_ = w.crop(f, mode=m, return_ranges=True)
                 out.append({"idx": [int(x) for x in idx], "rng": [[int(a), int(b)] for a, b in rng_]})
+        # a window built with an `end` (as __call__ builds them) crops exactly like the same window without one
+        kw_ = ({} if case.get("fixed") is None else {"fixed": t(case["fixed"])}) if case["k"] == "seg" else {}
+        for e_ in (case["start"] + 3 * case["step"], case["start"] + 40 * case["step"], case["start"] + case["dur"] + 1):
+            try:
+                w2 = SlidingWindow(duration=t(case["dur"]), step=t(case["step"]), start=t(case["start"]), end=t(e_))
+            except ValueError:
+                continue
+            for k_, m in enumerate(("loose", "strict", "center")):
+                got = {"idx": [int(x) for x in w2.crop(f, mode=m, **kw_)],
+                       "rng": [[int(a), int(b)] for a, b in w2.crop(f, mode=m, return_ranges=True, **kw_)]}
+                assert got == out[k_], "crop(mode=%s) by a window with end=%r differs from the window without end: %r vs %r" % (m, e_, got, out[k_])
         return {"obs": out}
     finally:
         tb.leave()
